@@ -70,10 +70,18 @@ def names_ok(names, sep):
     return all(v not in ("", ".", "..", "**") and sep not in v and "*" not in v and "?" not in v for _, v in names)
 
 
+def _recase(rng, nm):
+    """the same name in another spelling of its ASCII letters (what `ignorecase` is about)"""
+    if not all(ord(ch) < 128 for ch in nm):
+        return nm
+    return rng.choice([nm.swapcase(), nm.upper(), nm.lower(), nm.capitalize()])
+
+
 def random_component(rng, pool, wild):
     r = rng.random()
     if r < 0.45:
-        return rng.choice(pool)
+        nm = rng.choice(pool)
+        return _recase(rng, nm) if rng.random() < 0.3 else nm
     if r < 0.55:
         return ".."
     if r < 0.62:
